@@ -154,3 +154,25 @@ Example graph_denorm_zero_value_refuted :
   nz_tabulate 3 ex_Wbad (grand 3) == 0 /\ nz_tabulate 3 ex_Wbad 3%N == 1 /\
   nz_tabulate 3 (nz_denormalize_graph 3 (nz_normalize_graph 3 ex_Wbad) (nz_graph_norminfo 3 ex_Wbad)) 3%N == 0.
 Proof. repeat split; vm_compute; reflexivity. Qed.
+
+(* Why the float defect exists (KNOWN FINDING C15:normalize:float-additive-residue).  The theorems need EXACT
+   superadditivity.  The float64 game produced by generators.additive(3, numpy.random.default_rng(2)) is additive only up to
+   rounding: it is superadditive up to 2^-53, its exact surplus is 2^-53 instead of 0, and the faithful model - like the
+   code, whose exact-zero guard `if not grand_coalition_value` does not fire - divides rounding residues by a rounding
+   residue: coalition {0,2} gets the value -1.  So norm_range does NOT extend to "superadditive within a tolerance";
+   the implementation has to decide additivity with a tolerance (DESIGN.md Appendix B). *)
+Definition ex_float_additive : list Q :=
+  [0; 2356392620641643 # 9007199254740992; 1344284602253239 # 4503599627370496; 5044961825148121 # 9007199254740992;
+   3666946741935867 # 4503599627370496; 302821440766043 # 281474976710656; 2505615672094553 # 2251799813685248;
+   773678456813741 # 562949953421312].
+Definition ex_fa (c : N) : Q := nth (N.to_nat c) ex_float_additive 0.
+Example norm_range_tolerant_SA_refuted :
+  nz_SA_tol 3 (1 # 9007199254740992) ex_fa /\ ex_fa 0%N == 0 /\ nz_surplus 3 ex_fa == 1 # 9007199254740992 /\
+  exists t' info, nz_normalize_icg 3 (nz_table_of 3 ex_fa) = Some (t', info) /\ lo (get t' 5%N) == -(1).
+Proof.
+  split; [apply nz_SAb_tol_sound; vm_compute; reflexivity|]. split; [reflexivity|]. split; [vm_compute; reflexivity|].
+  destruct (nz_normalize_icg 3 (nz_table_of 3 ex_fa)) as [[t' info]|] eqn:E; [|vm_compute in E; discriminate].
+  exists t', info. split; [reflexivity|].
+  assert (H : option_map (fun r => lo (get (fst r) 5%N)) (nz_normalize_icg 3 (nz_table_of 3 ex_fa)) = Some (-(1))) by (vm_compute; reflexivity).
+  rewrite E in H. cbn [option_map fst] in H. injection H as ->. reflexivity.
+Qed.
